@@ -3020,6 +3020,7 @@ Grammar* IGXMLScanner::loadDTDGrammar(const InputSource& src,
 {
     // Reset the validators
     fDTDValidator->reset();
+    fDTDValidator->setErrorReporter(fErrorReporter);
     if (fValidatorFromUser)
         fValidator->reset();
 
